@@ -1,8 +1,8 @@
 ------------------------------- MODULE JudgeArtifact -------------------------------
 (* Clauses for artifact events (C20): one event = one archive built from a sequence of add_* operations and
    then read back completely (every layer as every kind, by digest, by media type, annotations). *)
-EXTENDS Artifact, JudgeText
-ArtifactEvents == {"artifact"}
+EXTENDS Artifact, ArtifactStore, JudgeText
+ArtifactEvents == {"artifact", "store_op"}
 KindSeq == <<"instance", "parametric", "solution", "sample_set">>
 AsOf(layer, k) == CASE k = "instance" -> layer.as.instance [] k = "parametric" -> layer.as.parametric
                     [] k = "solution" -> layer.as.solution [] k = "sample_set" -> layer.as.sample_set
@@ -43,4 +43,35 @@ ClausesArtifact(e) ==
     annotation_get_set |-> \A i \in 1..n : LET a == AsOf(outs[i], ins[i].kind) IN
                               /\ a.tag = "ok" => \E j \in 1..n : dig(j) = dig(i) /\ ins[j].kind = ins[i].kind /\ AnnOK(ins[i].kind, ins[j].ann, a.acc)
                               /\ \A k \in DOMAIN ins[i].ann.other : \E p \in DOMAIN outs[i].ann : outs[i].ann[p] = ins[i].ann.other[k] ]
+\* ---- the artifact store as a state machine: one event per operation with the observed store before and after --------
+\* abstraction of an observation (only entries that could be read back count as present)
+ObsReg(o) == LET ok == { i \in DOMAIN o.images : o.images[i].read.tag = "ok" } IN
+             [ nm \in { o.images[i].name : i \in ok } |-> o.images[CHOOSE i \in ok : o.images[i].name = nm].read.content ]
+ObsFiles(o) == LET ok == { i \in DOMAIN o.files : o.files[i].read.tag = "ok" } IN
+               [ p \in { o.files[i].path : i \in ok } |->
+                   LET r == o.files[CHOOSE i \in ok : o.files[i].path = p].read IN [name |-> r.name, content |-> r.content] ]
+ObsStore(o) == [reg |-> ObsReg(o), files |-> ObsFiles(o)]
+AllReadable(o) == (\A i \in DOMAIN o.images : o.images[i].read.tag = "ok") /\ (\A i \in DOMAIN o.files : o.files[i].read.tag = "ok")
+StoreOpOf(i) == CASE i.op = "build_archive" -> [op |-> i.op, path |-> i.path, name |-> i.name, layers |-> i.layers]
+                  [] i.op = "build_dir" -> [op |-> i.op, name |-> i.name, layers |-> i.layers]
+                  [] i.op = "load" -> [op |-> i.op, path |-> i.path]
+                  [] i.op = "save" -> [op |-> i.op, name |-> i.name, out |-> i.out]
+ClausesStoreOp(e) ==
+  IF ~NoPanic(e) THEN [ no_panic |-> FALSE ]
+  ELSE LET pre == ObsStore(e.in.pre)  post == ObsStore(e.out.post)  op == StoreOpOf(e.in)
+           r == StoreStep(pre, op)  cr == Created(pre, op) IN
+  [ no_panic |-> TRUE,
+    \* every history starts on an empty store (guards the harness: a registry shared between runs would make most steps no-ops)
+    fresh_store |-> e.step = 1 => pre = EmptyStore,
+    \* C20 at store level: everything the store lists can be read; what an operation stores is read back equal, from the
+    \* medium it was stored in; no operation disturbs any other entry
+    readable |-> AllReadable(e.out.post),
+    stored_content |-> (Ok(e) /\ cr # <<>>) =>
+         IF cr[1][1] = "reg" THEN cr[1][2] \in DOMAIN post.reg /\ post.reg[cr[1][2]] = cr[1][3]
+         ELSE cr[1][2] \in DOMAIN post.files /\ post.files[cr[1][2]].content = cr[1][3],
+    others_untouched |-> /\ \A k \in DOMAIN pre.reg : k \in DOMAIN post.reg /\ post.reg[k] = pre.reg[k]
+                         /\ \A p \in DOMAIN pre.files : p \in DOMAIN post.files /\ post.files[p] = pre.files[p],
+    \* the code's policy as modelled (extension clauses: existing targets, names, the exact post-state)
+    result |-> Ok(e) <=> r.ok,
+    step |-> post = r.S ]
 =============================================================================
